@@ -168,21 +168,19 @@ Theorem C01_ray_refuted :
 Proof. exact ray_refuted. Qed.
 
 Theorem C01_color3uint8_unknown_property_refuted :
-  exists b, enc_col WColor3uint8 ectx0 [VColor3uint8 1 2 3] = Ok b /\
-            dec_col WColor3uint8 (to_default_rbx_type WColor3uint8) ctx0 1 b = Err E_TYPE_MISMATCH.
+  enc_then_dec WColor3uint8 (to_default_rbx_type WColor3uint8) ectx0 ctx0 [VColor3uint8 1 2 3] = Err E_TYPE_MISMATCH.
 Proof. exact color3uint8_unknown_property_refuted. Qed.
 
 Theorem C01_content_object_order_refuted :
-  exists b, enc_col WContent ectx_id [VContent (CObject 7); VContent (CObject 9)] = Ok b /\
-            dec_col WContent VT_Content dctx_id 2 b = Ok ([VContent (CObject 9); VContent (CObject 7)], []).
+  enc_then_dec WContent VT_Content ectx_id dctx_id [VContent (CObject 7); VContent (CObject 9)]
+  = Ok ([VContent (CObject 9); VContent (CObject 7)], []).
 Proof. exact content_object_order_refuted. Qed.
 
 Theorem C01_font_cached_empty_refuted :
-  exists b, enc_col WFont ectx0 [VFont (mkFont [97] 400 0 (Some []))] = Ok b /\
-            dec_col WFont VT_Font ctx0 1 b = Ok ([VFont (mkFont [97] 400 0 None)], []).
+  enc_then_dec WFont VT_Font ectx0 ctx0 [VFont (mkFont [97] 400 0 (Some []))]
+  = Ok ([VFont (mkFont [97] 400 0 None)], []).
 Proof. exact font_cached_empty_refuted. Qed.
 
 Theorem C01_tags_refuted :
-  exists b, enc_col WString ectx0 [VTags [[97]; []; [98; 0; 99]]] = Ok b /\
-            dec_col WString VT_Tags ctx0 1 b = Ok ([VTags [[97]; [98]; [99]]], []).
+  enc_then_dec WString VT_Tags ectx0 ctx0 [VTags [[97]; []; [98; 0; 99]]] = Ok ([VTags [[97]; [98]; [99]]], []).
 Proof. exact tags_refuted. Qed.
